@@ -429,9 +429,61 @@ def main(tier="quick", seed=0, procs=None, only=None):
     dtype_part(run)
     try:
         shape_part(run, seed)
+        fresh_state_part(run, seed)
     except Exception as e:
-        run.error("shape part failed", e)
+        run.error("shape / fresh-state part failed", e)
     return run.finish()
+
+
+def fresh_state_part(run, seed):
+    """bounded, native: an optimizer's state belongs to THAT optimizer -- a second optimizer built on the same parameter tensors (a warm-up optimizer followed by the real
+    one, a re-created optimizer with another learning rate, Adam followed by AdamW, two optimizers stepping alternately) starts from empty state and follows the rule
+    from there, whatever an earlier or concurrent instance has accumulated"""
+    import synapgrad.optim.optimizers as O
+    from synapgrad.nn.modules import Parameter
+    from synapgrad.tensor import Tensor
+    rng = np.random.RandomState(seed + 13)
+    mk = {"SGD": lambda ps, lr: O.SGD(ps, lr=lr, momentum=0.9), "Adam": lambda ps, lr: O.Adam(ps, lr=lr, betas=(0.8, 0.9), eps=1e-2), "AdamW": lambda ps, lr: O.AdamW(ps, lr=lr, betas=(0.8, 0.9), eps=1e-2, weight_decay=0.1)}
+    hp = {"SGD": lambda lr: {"lr": lr, "maximize": False, "wd": None, "momentum": 0.9, "dampening": None, "nesterov": False},
+          "Adam": lambda lr: {"lr": lr, "maximize": False, "wd": None, "b1": 0.8, "b2": 0.9, "eps": 1e-2}, "AdamW": lambda lr: {"lr": lr, "maximize": False, "wd": 0.1, "b1": 0.8, "b2": 0.9, "eps": 1e-2}}
+
+    def rule(kind, p, g, st, lr, t):
+        return sgd_rule(p, g, st, hp[kind](lr), t) if kind == "SGD" else adam_rule(p, g, st, hp[kind](lr), t, kind == "AdamW")
+    for first, second, mode in (("SGD", "SGD", "sequence"), ("Adam", "Adam", "sequence"), ("Adam", "AdamW", "sequence"), ("AdamW", "Adam", "sequence"), ("SGD", "Adam", "sequence"),
+                                ("SGD", "SGD", "alternate"), ("Adam", "Adam", "alternate")):
+        p = Parameter(np.array([1.0, -2.0, 0.5]), requires_grad=True)
+        arr = p.data
+        exp = np.array(p.data, dtype=np.float64)
+        o1 = mk[first]([p], 0.05)
+        s1, s2, t1, t2 = {}, {}, 0, 0
+        o2 = mk[second]([p], 0.02) if mode == "alternate" else None
+        bad = None
+        run.rt(("fresh-state", first, second, mode))
+        try:
+            for step in range(8):
+                if mode == "sequence" and step == 4:
+                    o2 = mk[second]([p], 0.02)          # the second optimizer is built after the first one has taken its steps
+                use_second = (step >= 4) if mode == "sequence" else (step % 2 == 1)
+                opt = o2 if use_second else o1
+                opt.zero_grad()
+                g = rng.rand(3) - 0.3
+                (p * 1.0).backward(Tensor(g.copy()))
+                if use_second:
+                    t2 += 1
+                    exp = rule(second, exp, g, s2, 0.02, t2)
+                else:
+                    t1 += 1
+                    exp = rule(first, exp, g, s1, 0.05, t1)
+                opt.step()
+                if p.data is not arr or not np.allclose(p.data, exp, rtol=1e-10, atol=1e-12):
+                    bad = "after step %d (taken by the %s optimizer) the parameter holds %s, the rule started from that optimizer's own (empty) state gives %s" % (
+                        step + 1, "second" if use_second else "first", np.asarray(p.data).tolist(), exp.tolist())
+                    break
+        except Exception as e:
+            bad = "raised %s: %s" % (type(e).__name__, e)
+        if bad:
+            run.violation(OPT + second + ".step.follows_update_rule", "%s then %s on the same parameter tensor (%s): %s" % (first, second, mode, bad),
+                          key={"optimizer": second, "first_optimizer": first, "mode": mode, "clause": "state is per optimizer instance"}, replay={"first": first, "second": second, "mode": mode, "what": bad})
 
 
 def shape_part(run, seed):
